@@ -5,6 +5,7 @@
 import Driver.Codec
 import NarseseModel.PegSem
 import NarseseModel.PegWF
+import NarseseModel.EDoors
 import Proofs.RT.Top
 import Proofs.LRT.Bool
 import Proofs.C03.FoldValue
@@ -142,6 +143,17 @@ def typstOut (n : Narsese) : String :=
     | .task k => C.typstTask k
   s!"s {hs s}"
 
+/-- the stand-alone Typst renderings of the parts of a value (term, punctuation, stamp, truth, budget) -/
+def typstPartsOut (n : Narsese) : String :=
+  let C := Gen.typstC
+  let sentParts (s : Sentence) : List Str :=
+    [C.typstTerm s.term, C.typstPunct s.punct, C.typstStamp s.stamp, C.typstTruth s.truthOrEmpty]
+  let parts : List Str := match n with
+    | .term t => [C.typstTerm t]
+    | .sentence s => sentParts s
+    | .task k => sentParts k.sentence ++ [C.typstBudget k.budget]
+  "s " ++ " ".intercalate (parts.map hs)
+
 partial def rdManyStr (acc : List Str) : Rd (List Str) := do
   if (← atEnd) then pure acc.reverse else
     let s ← rdStr
@@ -196,6 +208,13 @@ def exec (op fmt payload : String) : Except String String := do
     let F ← efmtOf fmt
     let s ← runRd rdStr payload
     pure (showRes (showTruth .canon) (F.parseTruthDoor s))
+  | "emid" =>
+    let F ← efmtOf fmt
+    let s ← runRd rdStr payload
+    let o : Option String → String := fun x => x.getD "-"
+    pure (showRes (fun (m : Mid) =>
+      s!"{o (m.budget.map (showBudget .canon))} {o (m.term.map (showTerm .canon))} {o (m.punct.map showPunct)} {o (m.stamp.map showStamp)} {o (m.truth.map (showTruth .canon))} hs={bit m.hasSentence} ht={bit m.hasTask} ts={bit m.hasSentence} tt={bit m.hasTask}")
+      (F.parseMidDoor s))
   | "ebudget" =>
     let F ← efmtOf fmt
     let s ← runRd rdStr payload
@@ -238,6 +257,9 @@ def exec (op fmt payload : String) : Except String String := do
   | "typst" =>
     let v ← runRd rdNarsese payload
     pure (typstOut v)
+  | "typstparts" =>
+    let v ← runRd rdNarsese payload
+    pure (typstPartsOut v)
   | "api" =>
     let t ← runRd rdTerm payload
     pure (apiOut t)
